@@ -331,5 +331,71 @@ func init() {
 		g.def("tmplServerAuth", "Bool", strconv.FormatBool(serverAuth))
 		g.def("verifyOptionKeys", "List String", leanList(verifyKeys))
 		g.def("verifyNameIsCacheKey", "Bool", strconv.FormatBool(verifyNameIsKey))
+
+		// (d) a cache hit is handed out only from inside the success branch of its Verify: every `return <hit>, …`
+		// (hit = the variable read from the map, before it is reassigned to the fresh leaf) has an enclosing
+		// `if _, err := ….Verify(…); err == nil { … }` whose body contains it.
+		verified, unverified := 0, 0
+		for _, fd := range reach {
+			hitVar := ""
+			var limit token.Pos
+			ast.Inspect(fd.Body, func(n ast.Node) bool {
+				as, ok := n.(*ast.AssignStmt)
+				if !ok || len(as.Lhs) == 0 {
+					return true
+				}
+				if hitVar == "" && len(as.Rhs) == 1 && isCerts(as.Rhs[0]) {
+					hitVar = src(as.Lhs[0])
+				} else if hitVar != "" && limit == 0 && as.Tok == token.ASSIGN && src(as.Lhs[0]) == hitVar {
+					limit = as.Pos()
+				}
+				return true
+			})
+			if hitVar == "" {
+				continue
+			}
+			isVerifyGuard := func(is *ast.IfStmt) bool {
+				as, ok := is.Init.(*ast.AssignStmt)
+				if !ok || len(as.Rhs) != 1 {
+					return false
+				}
+				c, ok := as.Rhs[0].(*ast.CallExpr)
+				if !ok {
+					return false
+				}
+				sel, ok := c.Fun.(*ast.SelectorExpr)
+				if !ok || sel.Sel.Name != "Verify" || !strings.HasPrefix(src(sel.X), hitVar+".") {
+					return false
+				}
+				cond, ok := is.Cond.(*ast.BinaryExpr)
+				return ok && cond.Op == token.EQL && src(cond.Y) == "nil"
+			}
+			var stack []ast.Node
+			ast.Inspect(fd.Body, func(n ast.Node) bool {
+				if n == nil {
+					stack = stack[:len(stack)-1]
+					return true
+				}
+				stack = append(stack, n)
+				rs, ok := n.(*ast.ReturnStmt)
+				if !ok || len(rs.Results) == 0 || src(rs.Results[0]) != hitVar || (limit != 0 && rs.Pos() > limit) {
+					return true
+				}
+				guarded := false
+				for i, anc := range stack {
+					if is, ok := anc.(*ast.IfStmt); ok && isVerifyGuard(is) && i+1 < len(stack) && stack[i+1] == ast.Node(is.Body) {
+						guarded = true
+					}
+				}
+				if guarded {
+					verified++
+				} else {
+					unverified++
+				}
+				return true
+			})
+		}
+		g.def("verifiedHitReturns", "Nat", strconv.Itoa(verified))
+		g.def("unverifiedHitReturns", "Nat", strconv.Itoa(unverified))
 	})
 }
